@@ -181,7 +181,7 @@ func (f *blockDeviceBackedFile) GetNextRegionOffset(off int64, regionType filesy
 				}
 				return 0, err
 			}
-			if holeSourceOffsetBytes < int64(sectorIndex+1)*sectorSizeBytes {
+			if holeSourceOffsetBytes/sectorSizeBytes <= int64(sectorIndex) {
 				// Found an offset that refers both to a
 				// hole in the file and one in the hole
 				// source.
